@@ -10,7 +10,7 @@
 From Coq Require Import List Arith Bool ZArith Reals.
 From Coq Require String.
 From PA Require Import base.Arr base.Px base.MatL model.DistrGeom model.DistrFit model.DistrRepr
-  proofs.VmiInvProofs proofs.DistrGeomProofs proofs.DistrFitProofs proofs.DistrReprProofs proofs.C15R.
+  proofs.VmiInvProofs proofs.DistrGeomProofs proofs.DistrFitProofs proofs.DistrReprProofs proofs.C15R proofs.C15Inv.
 Import ListNotations.
 
 (* For every order 0..8 and both parities (18 cases, each decided by
@@ -72,11 +72,9 @@ Theorem C15_origin_strings :
 Proof. exact origin_strings. Qed.
 Print Assumptions C15_origin_strings.
 
-(* Mirroring image (and weights) and origin left-right or top-bottom leaves the
-   folded quadrant -- hence every even-order result -- unchanged, for every
-   shape, origin and rmax; left-right also with odd orders.  (Top-bottom
-   mirroring with odd orders, where the odd terms change sign, is swept
-   numerically only: partial.) *)
+(* Mirroring image (and weights) and origin left-right leaves the folded
+   quadrant -- hence every result -- unchanged, for every shape, origin and
+   rmax, with even orders only and with odd orders. *)
 Theorem C15_mirror_lr : forall h w row col rmax N (IM : list (list R)) a b,
   (row < h)%nat -> (col < w)%nat -> wf h w IM ->
   (let g := quad_geom h w row col rmax false N in
@@ -96,7 +94,31 @@ Proof.
 Qed.
 Print Assumptions C15_mirror_lr.
 
-Theorem C15_mirror_tb_partial : forall h w row col rmax N (IM : list (list R)) a b,
+(* Top-bottom mirroring of image, weights and origin (flipped_ud h w X X': X' is X
+   with the rows reversed), on the executable model of Distributions(...).image().cos():
+   with even orders only every result is unchanged (all radii); with odd orders
+   present, at every radius whose normal (Hankel) matrix is non-singular the
+   odd-order coefficients change sign and the even ones are unchanged (N <= 3
+   angular terms, the branches with hand-written inverses). *)
+Theorem C15_mirror_tb : forall h w row col rmax N, (row < h)%nat -> (col < w)%nat ->
+  forall meth use_sin (W W' : option (list (list R))) (IM IM' : list (list R)),
+  flipped_ud h w IM IM' -> flipped_ud_opt h w W W' ->
+  distr_cos Rops sqrtR meth (quad_geom h w (h - 1 - row) col rmax false N) use_sin W' IM'
+  = distr_cos Rops sqrtR meth (quad_geom h w row col rmax false N) use_sin W IM
+  /\
+  (forall r, N123 N -> (r <= rmax)%nat ->
+     hdet N (distr_pixels Rops sqrtR meth (quad_geom h w row col rmax true N) use_sin W IM r) <> 0%R ->
+     nth r (distr_cos Rops sqrtR meth (quad_geom h w (h - 1 - row) col rmax true N) use_sin W' IM') None
+     = option_map flip_odd (nth r (distr_cos Rops sqrtR meth (quad_geom h w row col rmax true N) use_sin W IM) None)).
+Proof. exact mirror_tb. Qed.
+Print Assumptions C15_mirror_tb.
+
+(* numpy's flipud gives such a pair *)
+Theorem C15_flipud_is_flipped : forall h w (X : list (list R)), wf h w X -> flipped_ud h w X (flipud X).
+Proof. exact flipud_flipped. Qed.
+
+(* the folded quadrant itself (the statement the theorem above is built on) *)
+Theorem C15_mirror_tb_fold : forall h w row col rmax N (IM : list (list R)) a b,
   (row < h)%nat -> (col < w)%nat -> wf h w IM ->
   let g := quad_geom h w row col rmax false N in
   let g' := quad_geom h w (h - 1 - row) col rmax false N in
@@ -104,7 +126,34 @@ Theorem C15_mirror_tb_partial : forall h w row col rmax N (IM : list (list R)) a
   g_Qh g' = g_Qh g /\ g_Qw g' = g_Qw g /\
   px 0%R (fold_image 0%R Rplus g' (flipud IM)) a b = px 0%R (fold_image 0%R Rplus g IM) a b.
 Proof. exact fold_mirror_tb_even. Qed.
-Print Assumptions C15_mirror_tb_partial.
+Print Assumptions C15_mirror_tb_fold.
+
+(* Multiplying all weights by a constant k <> 0 leaves the coefficients unchanged
+   at every radius whose normal matrix is non-singular (both parities, nearest
+   and linear, with or without sin weighting; N <= 3). *)
+Theorem C15_weights_scale :
+  forall h w row col rmax odd N meth use_sin (Wt IM : list (list R)) (k : R) r,
+  (row < h)%nat -> (col < w)%nat -> wf h w Wt -> wf h w IM -> k <> 0%R -> N123 N -> (r <= rmax)%nat ->
+  let g := quad_geom h w row col rmax odd N in
+  hdet N (distr_pixels Rops sqrtR meth g use_sin (Some Wt) IM r) <> 0%R ->
+  nth r (distr_cos Rops sqrtR meth g use_sin (Some (imap (Rmult k) Wt)) IM) None
+  = nth r (distr_cos Rops sqrtR meth g use_sin (Some Wt) IM) None.
+Proof. exact weights_scale. Qed.
+Print Assumptions C15_weights_scale.
+
+(* A larger rmax gives the same coefficients at the common radii: 'nearest'
+   method, even orders only (for every N, any weights, no conditioning
+   hypothesis: the pixel lists of the radius are literally the same).
+   Partial: 'linear' and odd orders are swept numerically only. *)
+Theorem C15_rmax_prefix_partial :
+  forall h w row col r1 r2 N use_sin (W : option (list (list R))) IM r,
+  (row < h)%nat -> (col < w)%nat -> (r <= r1)%nat -> (r1 <= r2)%nat ->
+  let g1 := quad_geom h w row col r1 false N in
+  let g2 := quad_geom h w row col r2 false N in
+  nth r (distr_cos Rops sqrtR Nearest g2 use_sin W IM) None
+  = nth r (distr_cos Rops sqrtR Nearest g1 use_sin W IM) None.
+Proof. exact rmax_prefix_nearest_even. Qed.
+Print Assumptions C15_rmax_prefix_partial.
 
 (* Changing pixels whose weight is zero changes no result. *)
 Theorem C15_zero_weight_pixels_ignored : forall h w meth g use_sin (Wt IM IM' : list (list R)),
